@@ -88,6 +88,10 @@ func (g *c08Gen) stmt() *sx.N {
 		add("defun-reader")
 		// reads a global unqualified: resolves in the DEFINING package
 		return sx.Call("defun", sx.Y(name), sx.L(), sx.Y(fw.Pick(g.r, c08Names)))
+	case k == 12 && g.r.Bool():
+		add("defun-self-qualified")
+		other := fw.Pick(g.r, c08Names)
+		return sx.Call("defun", sx.Y(name), sx.L(sx.Y(other)), sx.Call("list", sx.Y(other), g.guarded(sx.Y(g.cur+":"+other))))
 	case k == 12:
 		add("defun-setter")
 		return sx.Call("defun", sx.Y(name), sx.L(sx.Y("v")), sx.Call("set", sx.QY(fw.Pick(g.r, c08Names)), sx.Y("v")))
@@ -98,6 +102,20 @@ func (g *c08Gen) stmt() *sx.N {
 		add("ref-unqualified")
 		return g.probe("u", g.guarded(sx.Y(name)))
 	case k < 19:
+		if g.r.Chance(1, 3) {
+			// a qualified reference under a lexical binding of the same bare name, at top
+			// level and inside a function body (whose package is current while it runs)
+			add("ref-qualified-under-shadow")
+			p := g.pkgRef()
+			if g.r.Bool() {
+				p = g.cur
+			}
+			ref := sx.Call("list", sx.Y(name), g.guarded(sx.Y(p+":"+name)))
+			if g.r.Bool() {
+				return g.probe("qs", sx.Call("let", sx.L(sx.L(sx.Y(name), sx.I(int64(900+g.r.Intn(9))))), ref))
+			}
+			return g.probe("qs", sx.L(sx.Call("lambda", sx.L(sx.Y(name)), ref), sx.I(int64(800+g.r.Intn(9)))))
+		}
 		add("ref-qualified")
 		return g.probe("q", g.guarded(sx.Y(g.pkgRef()+":"+name)))
 	case k == 19:
@@ -308,6 +326,8 @@ func c08TagKind(k string) string {
 		return "unqualified-reference"
 	case "q":
 		return "qualified-reference"
+	case "qs":
+		return "qualified-reference-under-shadow"
 	case "call":
 		return "call"
 	case "load":
